@@ -280,6 +280,11 @@ def drive(modname: str, tier: str, base_seed: int, jobs: int, runs_override: int
     t0 = time.time()
     mod = _load(modname)
     prop = mod.PROP
+    rdir = os.path.join(VERIF, "replays")
+    if os.path.isdir(rdir):  # replay files of earlier runs of this check are stale now
+        for fn in os.listdir(rdir):
+            if fn.startswith(prop + "-") and fn.endswith(".json"):
+                os.unlink(os.path.join(rdir, fn))
     cfg = dict(mod.TIERS[tier])
     if runs_override:
         cfg["runs"] = runs_override
